@@ -166,6 +166,7 @@ fn fault_case(rec: &mut Rec, ctx: &Ctx, idx: u64, rng: &mut ChaCha20Rng) {
         let still_valid_share = t == 1 && fname == "x";
         let what = format!("{}:={}@{}", fname, vname, pname);
         rec.case(&(fname, pname, "element", vname, t));
+        rec.evals += 1; // one executed (faulted) collection per case
         judge(rec, &coll, &a.m, pos == 0 && !still_valid_share && ml + rl >= 16, &what, star_level, || {
           json!({"kind":"element-fault","field":fname,"value":vname,"share_position":pos,"t":t,
                  "collection_hex": coll.iter().map(|b| hex(b)).collect::<Vec<_>>(), "expected_message": hex(&a.m)})
@@ -193,6 +194,7 @@ fn fault_case(rec: &mut Rec, ctx: &Ctx, idx: u64, rng: &mut ChaCha20Rng) {
         };
         let what = format!("{}:=value@{}", fname, pname);
         rec.case(&(fname, pname, "value", v, t));
+        rec.evals += 1; // one executed (faulted) collection per case
         judge(rec, &coll, &a.m, pos == 0 && value_changed && ml + rl >= 16, &what, star_level, || {
           json!({"kind":"field-value-fault","field":fname,"new_value":v,"old_value":cur,"share_position":pos,"t":t,
                  "collection_hex": coll.iter().map(|b| hex(b)).collect::<Vec<_>>(), "expected_message": hex(&a.m)})
@@ -223,6 +225,7 @@ fn fault_case(rec: &mut Rec, ctx: &Ctx, idx: u64, rng: &mut ChaCha20Rng) {
           let must_fail = pos == 0 && value_changed && !still_valid_share && ml + rl >= 16;
           let what = format!("{}@{}", fname, pname);
           rec.case(&(fname, pname, *fault, off - range.start, t));
+          rec.evals += 1; // one executed (faulted) collection per case
           judge(rec, &coll, &a.m, must_fail, &what, star_level, || {
             json!({"kind":"field-fault","field":fname,"byte_offset":off,"fault":fault,"share_position":pos,"t":t,
                    "collection_hex": coll.iter().map(|b| hex(b)).collect::<Vec<_>>(), "expected_message": hex(&a.m)})
@@ -273,6 +276,7 @@ fn mixture_case(rec: &mut Rec, _ctx: &Ctx, idx: u64, rng: &mut ChaCha20Rng) {
     let first = coll[0].0;
     let ts: Vec<u32> = sh.iter().map(|s| s.t).collect();
     rec.case(&("mix", coll.iter().map(|c| c.0).collect::<Vec<_>>(), ts.clone()));
+    rec.evals += 1; // one executed (faulted) collection per case
     judge(rec, &bytes, &sh[first].m, false, "mixture", idx % 2 == 0, || {
       json!({"kind":"mixture","collection":coll.iter().map(|(s,i)| json!([s,i])).collect::<Vec<_>>(),"thresholds":ts,
              "collection_hex": bytes.iter().map(|b| hex(b)).collect::<Vec<_>>(), "expected_message": hex(&sh[first].m)})
@@ -288,6 +292,7 @@ fn mixture_case(rec: &mut Rec, _ctx: &Ctx, idx: u64, rng: &mut ChaCha20Rng) {
         let mut bytes: Vec<Vec<u8>> = vec![x.encode()];
         bytes.extend(sh[1].enc.iter().cloned());
         rec.case(&("first-x-structured", vname));
+        rec.evals += 1; // one executed (faulted) collection per case
         judge(rec, &bytes, &sh[0].m, false, &format!("first-share-x:={}+other-sharing", vname), false, || {
           json!({"kind":"first-x-structured","value":vname,"collection_hex": bytes.iter().map(|b| hex(b)).collect::<Vec<_>>(), "expected_message": hex(&sh[0].m)})
         });
@@ -311,6 +316,7 @@ fn mixture_case(rec: &mut Rec, _ctx: &Ctx, idx: u64, rng: &mut ChaCha20Rng) {
         let mut bytes: Vec<Vec<u8>> = vec![x.encode()];
         bytes.extend(sh[0].enc[1..].iter().cloned());
         rec.case(&("graft", g));
+        rec.evals += 1; // one executed (faulted) collection per case
         judge(rec, &bytes, &sh[0].m, true, &format!("graft{}", g), false, || {
           json!({"kind":"graft","field":g,"collection_hex": bytes.iter().map(|b| hex(b)).collect::<Vec<_>>(), "expected_message": hex(&sh[0].m)})
         });
